@@ -14,7 +14,7 @@ That following Pmat really ends at the target with the reported length is not de
 """
 import ast
 
-from ..core.astutil import norm, cn, ParentMap
+from ..core.astutil import where_unpack, norm, cn, ParentMap
 from ..core.cfg import CFG
 from ..core.loader import walk_no_nested
 from ..core.pattern import Matcher
@@ -252,7 +252,7 @@ def _navigation(prog, rep):
         oki = max(order[:3]) < order[3] < order[4]
     rep.ob('N.step-advances-all-three-lengths-with-the-same-pair', f, '; '.join(x for x in top if x.startswith(('pl_', 'curr_', 'last_'))), oki,
            'each accepted step adds 1 hop, the connection length L[current, next] and the distance D[current, next], then moves the cursor; all before the cursor moves', line=w.lineno)
-    nb = [s for s in w.body if isinstance(s, ast.Assign) and isinstance(s.targets[0], ast.Tuple) and m.match(s.value, 'np.where(%s[curr_node, :] != 0)' % Lm)]
+    nb = [s for s in w.body if where_unpack(s) is not None and m.match(where_unpack(s)[1], '%s[curr_node, :] != 0' % Lm)]
     mi = [s for s in w.body if m.match(s, 'min_ix = np.argmin(%s[target, neighbors])' % Dm) or m.match(s, 'min_ix = np.argmin(%s[neighbors, target])' % Dm)]
     nx = [s for s in w.body if m.match(s, 'next_node = neighbors[min_ix]')]
     rep.ob('N.next-node-is-a-neighbour-nearest-to-target', f, '; '.join(norm(s) for s in nb + mi + nx), len(nb) == 1 and len(mi) == 1 and len(nx) == 1,
@@ -267,7 +267,7 @@ def _navigation(prog, rep):
     oks = all(x in before for x in ['curr_node = i', 'target = j', 'curr_paths = [curr_node]', 'pl_bin = 0', 'pl_wei = 0', 'pl_dis = 0', 'last_node = curr_node'])
     rep.ob('N.walk-state-reset-per-pair', f, '; '.join(before), oks, 'cursor, path list and the three counters must be re-initialised for every (i, j)', line=w.lineno)
     sr = [s for s in stmts if isinstance(s, ast.Assign) and norm(s.targets[0]) == 'sr']
-    inf_ix = [s for s in stmts if isinstance(s, ast.Assign) and isinstance(s.targets[0], ast.Tuple) and m.match(s.value, 'np.where(PL_bin.flat == np.inf)')]
+    inf_ix = [s for s in stmts if where_unpack(s) is not None and (m.match(where_unpack(s)[1], 'PL_bin.flat == np.inf') or m.match(where_unpack(s)[1], 'PL_bin == np.inf'))]
     dg = [norm(s) for s in stmts if isinstance(s, ast.Expr) and norm(s).startswith('np.fill_diagonal(PL_')]
     oksr = len(sr) == 1 and len(inf_ix) == 1 and norm(sr[0].value) in ('1 - (len(inf_ixes) - n) / (n ** 2 - n)', '1 - (len(inf_ixes) - n) / (n * n - n)') and len(dg) == 3
     rep.ob('N.success-ratio', f, sr[0] if sr else 'sr', oksr, 'success ratio = 1 - (#infinite entries - n diagonal entries) / (n^2 - n)', line=f.node.lineno)
